@@ -2,6 +2,7 @@ import Proofs.C02.Ecdsa
 import Proofs.C02.Misc
 import Proofs.C02.Der
 import Proofs.C02.Witness
+import Proofs.E2E.C02
 /-!
 # C02 — ECDSA: signatures verify, verification is the SEC 1 equation, recovery, DER is canonical
 
@@ -146,6 +147,78 @@ example : signRecoverable (EC.ops toy) 3 5 1 true = .ok (4, 3, 1) := by decide +
 example : verify (EC.ops toy) 3 ((EC.mult toy 5 toy.G).getD EC.INF) 4 3 = true := by decide +kernel
 example : verify (EC.ops toy) 3 ((EC.mult toy 5 toy.G).getD EC.INF) 4 4 = false := by decide +kernel
 example : recover (EC.ops toy) false 1 3 4 3 true = .ok ((EC.mult toy 5 toy.G).getD EC.INF) := by
+  decide +kernel
+
+end Props.C02
+
+/-! ## End to end: the same theorems about `Btc.EC.ops C` itself, no `Lawful` hypothesis
+
+`L : Lawful o G` above is discharged by C01's capstone `Btc.C01.lawful_ec` (Proofs/C01/CapstoneLawful.lean): for
+every curve with `CurveOk p C` (p prime ≠ 2, n an odd prime, generator reduced, on the curve, of order n) and
+`p ≡ 3 (mod 4)`.  The statements are about the raw integer pairs the driver computes with (`Btc.EC.ops C`), the
+scheme functions being the same definitions as above (proofs: Proofs/E2E/C02.lean).  For secp256k1 (the generated
+constants `Gen.Curves.secp256k1`) every `CurveOk` field except the primality of `p` and of `n` is computed by the
+kernel (`Btc.E2E.secpOk`; `n•G = ∞` by running the 256-step double-and-add), so those two are the only hypotheses. -/
+namespace Props.C02
+open Btc Btc.EC Btc.C01 Btc.E2E Btc.Ecdsa
+
+/-- T1 on btclib's arithmetic, any curve -/
+theorem ecdsa_sign_verifies_ec {p : ℕ} [Fact p.Prime] {C : Curve} (K : CurveOk p C) (h34 : p % 4 = 3)
+    {c q k : ℤ} {lowerS : Bool} {r s kid : ℤ}
+    (hk : 0 < k ∧ k < C.n) (h : signRecoverable (EC.ops C) c q k lowerS = .ok (r, s, kid)) :
+    verify (EC.ops C) c ((EC.ops C).mul q C.G) r s = true ∧ (lowerS = true → s ≤ C.n / 2) :=
+  Btc.E2E.ecdsa_sign_verifies_ec K h34 hk h
+
+/-- T2 on btclib's arithmetic, any curve: `Q` a reduced valid pair of the `n`-torsion, `SEC1` read in Mathlib's point
+    group of the curve over `ZMod p` through `absSub` (the point a pair denotes) -/
+theorem ecdsa_verify_iff_sec1_ec {p : ℕ} [Fact p.Prime] {C : Curve} (K : CurveOk p C) (h34 : p % 4 = 3)
+    (c : ℤ) (Q : SubPt p C) (r s : ℤ) :
+    verify (EC.ops C) c Q.1 r s = true ↔ SEC1 (lawful_ec K h34) c Q r s :=
+  Btc.E2E.ecdsa_verify_iff_sec1_ec K h34 c Q r s
+
+/-- T3 on btclib's arithmetic, any curve: the recovered pair is `==` to `mult q G` -/
+theorem ecdsa_recover_signer_ec {p : ℕ} [Fact p.Prime] {C : Curve} (K : CurveOk p C) (h34 : p % 4 = 3)
+    {c q k : ℤ} {lowerS : Bool} {r s kid : ℤ} (hk : 0 < k ∧ k < C.n) (hq : 0 < q ∧ q < C.n)
+    (h : signRecoverable (EC.ops C) c q k lowerS = .ok (r, s, kid))
+    (primeOrder lowerS' : Bool) (hl' : lowerS' = true → lowerS = true) :
+    ∃ Q', recover (EC.ops C) primeOrder kid c r s lowerS' = .ok Q' ∧
+      (EC.ops C).eq Q' ((EC.ops C).mul q C.G) = true :=
+  Btc.E2E.ecdsa_recover_signer_ec K h34 hk hq h primeOrder lowerS' hl'
+
+/-- T1 on secp256k1: the ONLY hypotheses are the primality of `p` and of `n` -/
+theorem ecdsa_sign_verifies_secp256k1 (hp : Nat.Prime secp256k1_p) (hn : Nat.Prime secp256k1_n)
+    {c q k : ℤ} {lowerS : Bool} {r s kid : ℤ} (hk : 0 < k ∧ k < secp256k1.n)
+    (h : signRecoverable (EC.ops secp256k1) c q k lowerS = .ok (r, s, kid)) :
+    verify (EC.ops secp256k1) c ((EC.ops secp256k1).mul q secp256k1.G) r s = true ∧
+      (lowerS = true → s ≤ secp256k1.n / 2) :=
+  Btc.E2E.ecdsa_sign_verifies_secp256k1 hp hn hk h
+
+/-- T2 on secp256k1 -/
+theorem ecdsa_verify_iff_sec1_secp256k1 (hp : Nat.Prime secp256k1_p) (hn : Nat.Prime secp256k1_n)
+    (c : ℤ) (Q : SecpPt hp) (r s : ℤ) :
+    verify (EC.ops secp256k1) c Q.1 r s = true ↔ SEC1 (secpLawful hp hn) c Q r s :=
+  Btc.E2E.ecdsa_verify_iff_sec1_secp256k1 hp hn c Q r s
+
+/-- T3 on secp256k1 -/
+theorem ecdsa_recover_signer_secp256k1 (hp : Nat.Prime secp256k1_p) (hn : Nat.Prime secp256k1_n)
+    {c q k : ℤ} {lowerS : Bool} {r s kid : ℤ}
+    (hk : 0 < k ∧ k < secp256k1.n) (hq : 0 < q ∧ q < secp256k1.n)
+    (h : signRecoverable (EC.ops secp256k1) c q k lowerS = .ok (r, s, kid))
+    (primeOrder lowerS' : Bool) (hl' : lowerS' = true → lowerS = true) :
+    ∃ Q', recover (EC.ops secp256k1) primeOrder kid c r s lowerS' = .ok Q' ∧
+      (EC.ops secp256k1).eq Q' ((EC.ops secp256k1).mul q secp256k1.G) = true :=
+  Btc.E2E.ecdsa_recover_signer_secp256k1 hp hn hk hq h primeOrder lowerS' hl'
+
+-- non-vacuity: `CurveOk` is PROVED for `y² = x³ + 7` over `F₄₃` (31 points), so on it nothing is assumed: an actual
+-- signing run of btclib's arithmetic, and the theorems' verdicts on it
+example : signRecoverable (EC.ops toyC) 3 5 2 true = .ok (7, 12, 0) := toy_ecdsa_sign
+example : verify (EC.ops toyC) 3 ((EC.ops toyC).mul 5 toyC.G) 7 12 = true :=
+  (ecdsa_sign_verifies_ec toyOk (by decide) (by decide) toy_ecdsa_sign).1
+example : ∃ Q', recover (EC.ops toyC) true 0 3 7 12 true = .ok Q' ∧
+    (EC.ops toyC).eq Q' ((EC.ops toyC).mul 5 toyC.G) = true :=
+  ecdsa_recover_signer_ec toyOk (by decide) (by decide) (by decide) toy_ecdsa_sign true true (fun h => h)
+-- the signing hypothesis is satisfiable on secp256k1 as well (challenge 3, key 5, nonce 2)
+example : (match signRecoverable (EC.ops secp256k1) 3 5 2 true with | .ok _ => true | .error _ => false) = true := by
   decide +kernel
 
 end Props.C02
